@@ -28,6 +28,83 @@ CHECKS = {
     ),
 }
 
+PYVC = "contract-based deductive verification: pyvc (self-written AST->SMT VC generator over the real source, contracts at call sites, loop invariants, induction lemmas) + z3/cvc5"
+CHECKS.update(
+    {
+        "C04": dict(
+            category="proof",
+            technique=PYVC + "; bounded operation-history enumeration as cross-check",
+            text=(
+                "Resources.allocate / allocate_multiple / deallocate / __gt__ / getters and Worker.place_task / remove_task / load_profile / evict_profile / "
+                "can_accomodate_strategy are proved against an abstract ledger view for ALL resource vectors, requests and residents: a refused request changes "
+                "nothing, a served request lowers the availability of exactly the matching keys by exactly the requested amount and records exactly that amount for "
+                "the holder, deallocation returns exactly what was recorded, and the worker ledger invariant WF_W (residents <-> allocations <-> batches <-> profiles) is "
+                "preserved by every mutator. Prefix-sum facts are lemmas proved by explicit induction steps. Bounded part: operation histories (copy/deepcopy, pool level) "
+                "are enumerated up to a stated length. Not machine-checked: additivity of the finite sum over holders (per-operation conservation is)."
+            ),
+            note=BASE_NOTE + " Specific: allocate_multiple is proved atomic under Pre_disjoint (no two request keys match one vector key) -- the overlapping case is a known finding of the bounded check; dict keys of value class Resource compared structurally (no hash collisions); Task/strategy/profile keys by identity (distinct ids); copy()/deepcopy() of Resources/Worker are bounded-only.",
+            design_ref="DESIGN.md section 6 (C04)",
+        ),
+        "C06": dict(
+            category="proof",
+            technique=PYVC + "; lemmas over the transition relation; write-site scan; bounded enumeration for the cancellation closure",
+            text=(
+                "Every Task mutator (release, schedule, unschedule, start, step, preempt, resume, finish, cancel, update_remaining_time) is proved to move the state only along "
+                "the allowed transition relation taken from the statement, to raise (leaving the task unchanged) exactly in the stated states, and to preserve the task "
+                "representation invariant; lemmas show COMPLETED/CANCELLED/EVICTED have no outgoing edge, CANCELLED is entered only before running and RUNNING only from "
+                "SCHEDULED/PREEMPTED; a scan shows _state is written only inside Task. Cancellation closure and graph-finished reporting are bounded (labelled so)."
+            ),
+            note=BASE_NOTE + " Specific: Task.__init__ is an assumed contract; log-statement arguments are assumed pure; TaskGraph.cancel is decided only by the bounded stand-in.",
+            design_ref="DESIGN.md section 6 (C06)",
+        ),
+        "C19": dict(
+            category="exploration",
+            technique="bounded small-scope enumeration of descriptions against contracts written from the statement (stand-in), plus pyvc proof obligations on EventTime.fuzz",
+            text=(
+                "Bounded stand-in: generated YAML/JSON descriptions (job graphs <= 4 nodes, all optional-field combinations up to the bound, every release policy) are "
+                "loaded by the real loaders and compared structurally with an independent reading; release times, closed-loop in-flight bound, fresh isomorphic copies and "
+                "deadline stretch are checked per invocation. EventTime.fuzz is additionally under a proved contract (floats as reals). Not a proof: the loaders are outside "
+                "the pyvc subset (string/dict parsing)."
+            ),
+            note="Bounded: the bound is in the evidence file. Trusted: independent re-reader in bounded/loaders.py; numpy arange/linspace; seeded RNG wrappers.",
+            design_ref="DESIGN.md section 6 (C19)",
+        ),
+        "C10": dict(
+            category="exploration",
+            technique="captured solver-model implication (every feasible point of the model the real schedule() builds, z3-decided) on bounded instances; pyvc contracts on the fit test",
+            text=(
+                "Bounded in instances, complete in solutions: on each enumerated small instance the real ILP / TetriSched-Gurobi / TetriSched-CPLEX / Z3 schedule() runs, the solver "
+                "model it built is read back and translated to z3, and 'model AND NOT (capacity at every instant, existing worker, own strategy, time >= now/release)' must be unsat; "
+                "run-level: one decision per task, only offered tasks, live cluster and task states unchanged. Greedy/Clockwork policies: small-scope enumeration (when registered). "
+                "The fit test Resources.__gt__ / Worker.can_accomodate_strategy is proved."
+            ),
+            note="Bounded: instance bound in the evidence. Trusted: read-back API of gurobipy/docplex/z3, the model->z3 translation in bounded/milp_capture.py, solver feasibility answers.",
+            design_ref="DESIGN.md section 6 (C10)",
+        ),
+        "C11": dict(
+            category="exploration",
+            technique="captured solver-model implication: precedence holds at EVERY feasible point of the captured ILP / TetriSched-Gurobi / Z3 model, bounded instances",
+            text="Bounded in instances (all DAG shapes <= 4 nodes x new/running/scheduled parents), complete in solutions (z3 decides model AND NOT precedence).",
+            note="Bounded. Trusted: model read-back and translation, decode rule cross-checked against the returned placements on every instance.",
+            design_ref="DESIGN.md section 6 (C11)",
+        ),
+        "C12": dict(
+            category="exploration",
+            technique="captured solver-model implication for the deadline rows / cell pruning on bounded instances; run-level cancellation check",
+            text="Bounded in instances (deadlines past / tight / loose), complete in solutions: placed => start + chosen runtime <= deadline at every feasible point; hopeless tasks cancelled (CPLEX) or unplaced (ILP, Gurobi).",
+            note="Bounded. Greedy/Clockwork admission is covered by the sched_small stand-in when registered.",
+            design_ref="DESIGN.md section 6 (C12)",
+        ),
+        "C14": dict(
+            category="translation_validation",
+            technique="captured solver model vs an independent brute-force feasibility spec in the planner's own decision space (no over-tight row; goodput / maximality of the returned plan), bounded instances",
+            text="Per instance: every plan the statement allows must be a feasible point of the captured model, the ILP plan must reach the brute-force goodput optimum and the TetriSched plan must be maximal. Instances up to the property's own enumeration bound.",
+            note="Bounded; solver optimality trusted (gap < 1 unit at these sizes).",
+            design_ref="DESIGN.md section 6 (C14)",
+        ),
+    }
+)
+
 NOT_APPLICABLE = {
     "C20": "C++20 back-end (templates, shared_ptr DAGs, TBB): no deductive verifier for C++ is installed, the code cannot be annotated in place nor mechanically extracted into something z3/cvc5 VCs model soundly, and the library cannot be built here (TBB absent); a dump-and-check driver would be a different technique family.",
 }
@@ -50,7 +127,7 @@ def main():
                     "thorough_cmd": "./check %s --tier thorough" % pid,
                     "evidence_file": "evidence/%s.json" % pid,
                     "replay_cmd_template": "./check %s --replay {path}" % pid,
-                    "engine": "pyvc",
+                    "engine": "pyvc" if c["category"] == "proof" else "bounded",
                     "level_claimed": {"category": c["category"], "text": c["text"], "design_ref": c["design_ref"]},
                     "level_note": c["note"],
                     "technique": c["technique"],
